@@ -26,8 +26,8 @@ using verif::sfmt;
 
 namespace {
 
-enum Act { MARK, PASS, FAIL_CPP, FAIL_C, THROW_STD, THROW_INT, FAILTEXT_CPP, FAILTEXT_C };
-const char* ACT_NAME[] = {"mark", "pass", "CHECK!", "CHECK_C!", "throw-std", "throw-int", "FAIL", "FAIL_C"};
+enum Act { MARK, PASS, FAIL_CPP, FAIL_C, THROW_STD, THROW_INT, FAILTEXT_CPP, FAILTEXT_C, FAIL_IN_TRY };
+const char* ACT_NAME[] = {"mark", "pass", "CHECK!", "CHECK_C!", "throw-std", "throw-int", "FAIL", "FAIL_C", "CHECK!-in-try"};
 struct Action { Act act; int line; unsigned reps; };   // reps: bit k set = the failing action is armed in repetition k+1 (otherwise it only marks)
 int g_rep = 0;                                           // current repetition (0-based), advanced by the output's printTestsStarted
 struct TestSpec {
@@ -56,6 +56,15 @@ void interpret(int t, int ph) {
         case PASS: CHECK_TRUE_LOCATION(true, "CHECK", "true", NULLPTR, TESTFILE, (size_t)a.line); break;
         case FAIL_CPP: CHECK_TRUE_LOCATION(false, "CHECK", "cond", NULLPTR, TESTFILE, (size_t)a.line); break;
         case FAILTEXT_CPP: FAIL_LOCATION("failtext", TESTFILE, (size_t)a.line); break;
+        case FAIL_IN_TRY:   // the code under test has a barrier for standard errors around a call that fails a check: the check must still end the phase
+#if CPPUTEST_HAVE_EXCEPTIONS
+            try { CHECK_TRUE_LOCATION(false, "CHECK", "cond", NULLPTR, TESTFILE, (size_t)a.line); }
+            catch (const std::exception&) { g_trace.push_back(TraceEv{t, ph, 1000 + (int)i}); }
+            catch (const char*) { g_trace.push_back(TraceEv{t, ph, 2000 + (int)i}); }
+#else
+            CHECK_TRUE_LOCATION(false, "CHECK", "cond", NULLPTR, TESTFILE, (size_t)a.line);
+#endif
+            break;
         case FAIL_C: CHECK_C_LOCATION(0, "ccond", "", TESTFILE, (size_t)a.line); break;
         case FAILTEXT_C: FAIL_TEXT_C_LOCATION("cfailtext", TESTFILE, (size_t)a.line); break;
 #if CPPUTEST_HAVE_EXCEPTIONS
@@ -171,7 +180,7 @@ RepModel model_repetition(bool group_filter, int filter_group, bool run_ignored,
                 m.trace.push_back(TraceEv{(int)t, ph, (int)i});
                 if (a.act == PASS) m.checks++;
                 if (is_failing(a.act) && ((a.reps >> (rep & 3)) & 1)) {
-                    if (!is_throw(a.act)) { m.checks++; m.fails.insert(FailRec{sfmt("%s:%d", TESTFILE, a.line), tname, ACT_NAME[a.act]}); }
+                    if (!is_throw(a.act)) { m.checks++; m.fails.insert(FailRec{sfmt("%s:%d", TESTFILE, a.line), tname, a.act == FAIL_IN_TRY ? "CHECK!" : ACT_NAME[a.act]}); }
                     else m.fails.insert(FailRec{sfmt("%s:%d", TESTFILE, s.line), tname, ACT_NAME[a.act]});
                     if (is_throw(a.act) && rethrow) { if (aborted) *aborted = true; m.failures = m.fails.size(); return m; }
                     if (ph == 0) setup_ok = false;
@@ -274,7 +283,7 @@ int run_case(Reader& r, bool& nontrivial, std::string& desc) {
             int k = (int)r.below(5);
             for (int i = 0; i < k; i++) {
                 uint32_t c = r.below(12); Act a;
-                if (c < 3) a = MARK; else if (c < 5) a = PASS; else if (c == 5) a = FAIL_CPP; else if (c == 6) a = FAIL_C; else if (c == 7) a = FAILTEXT_CPP; else if (c == 8) a = FAILTEXT_C; else if (c == 9) a = THROW_STD; else if (c == 10) a = THROW_INT; else a = MARK;
+                if (c < 3) a = MARK; else if (c < 5) a = PASS; else if (c == 5) a = FAIL_CPP; else if (c == 6) a = FAIL_C; else if (c == 7) a = FAILTEXT_CPP; else if (c == 8) a = FAILTEXT_C; else if (c == 9) a = THROW_STD; else if (c == 10) a = THROW_INT; else a = (r.below(2) ? FAIL_IN_TRY : MARK);
 #if !CPPUTEST_HAVE_EXCEPTIONS
                 if (is_throw(a)) a = FAIL_CPP;
 #endif
@@ -441,6 +450,7 @@ int run_case(Reader& r, bool& nontrivial, std::string& desc) {
     if (use_static) verif::cls("static RunAllTests + real console output"); if (rethrow) verif::cls("rethrow mode"); if (aborted) verif::cls("exception left the run");
     if (vs_env) verif::cls("visual-studio format"); if (junit_v) verif::cls("-ojunit -v composite"); if (crash_f) verif::cls(g_crash_calls ? "-f, crash method called" : "-f");
     if (use_runner && verbosity) verif::cls(verbosity == 1 ? "-v" : "-vv"); if (use_runner && colour) verif::cls("-c");
+    { bool t = false; for (auto& s : g_prog) for (int ph = 0; ph < 3; ph++) for (auto& a : s.phase[ph]) if (a.act == FAIL_IN_TRY) t = true; if (t) verif::cls("failing check inside try/catch(std::exception)"); }
     if (repeat > 1) verif::cls("repeat>1"); if (any_throw) verif::cls("throws"); if (group_filter) verif::cls("group-filter"); if (run_ignored) verif::cls("run-ignored");
     return 0;
 }
